@@ -726,7 +726,11 @@ func (s *fsys) hcall(h hfile, o op, off int64, attr func(fs.FileInfo) string, cw
 
 		return res{Kind: errKind(err), N: n, Data: clip(b, n), Msg: errMsg(err)}
 	case "Write":
-		n, err := h.Write([]byte(o.Data))
+		// the buffer is overwritten once the call has returned: os.File keeps no
+		// reference to it, an implementation that does shows a change of content
+		data := []byte(o.Data)
+		n, err := h.Write(data)
+		fsx.Scribble(data)
 
 		return res{Kind: errKind(err), N: n, Msg: errMsg(err)}
 	case "WriteString":
@@ -734,7 +738,9 @@ func (s *fsys) hcall(h hfile, o op, off int64, attr func(fs.FileInfo) string, cw
 
 		return res{Kind: errKind(err), N: n, Msg: errMsg(err)}
 	case "WriteAt":
-		n, err := h.WriteAt([]byte(o.Data), off)
+		data := []byte(o.Data)
+		n, err := h.WriteAt(data, off)
+		fsx.Scribble(data)
 
 		return res{Kind: errKind(err), N: n, Msg: errMsg(err)}
 	case "Seek":
@@ -842,7 +848,10 @@ func (s *fsys) pathCall(kernel bool, o op, sz int64) res {
 			b, err = s.v.ReadFile(s.fp)
 		}
 
-		return res{Kind: errKind(err), N: len(b), Data: string(b), Msg: errMsg(err)}
+		r := res{Kind: errKind(err), N: len(b), Data: string(b), Msg: errMsg(err)}
+		fsx.Scribble(b) // a returned slice must not be the file's own storage
+
+		return r
 	case "P.Stat":
 		var fi fs.FileInfo
 
